@@ -16,6 +16,8 @@ import Driver.Collision
 import Driver.StateDb
 import Driver.Prestate
 import Driver.Bundle
+import Driver.AccessTx
+import Driver.AccessSets
 /-! Line-protocol driver: one request per line on stdin, one reply per line on stdout.
 Stateless components are dispatched on the first token. A stateful component `X` adds a field
 `x : Driver.X.St := Driver.X.St.init` to `DState`, resets it on `begin x …` and threads it through
@@ -32,6 +34,7 @@ structure DState where
   statedb : StateDb.St := {}
   prestate : Prestate.St := {}
   bundle : Driver.Bundle.St := Driver.Bundle.St.init
+  acc : Driver.AccessSets.St := Driver.AccessSets.St.init
   -- stateful component states go here
 
 def step (st : DState) (line : String) : DState × String :=
@@ -62,6 +65,9 @@ def step (st : DState) (line : String) : DState × String :=
   | "pst" :: r => let (s, out) := Prestate.handle st.prestate r; ({ st with prestate := s }, out)
   | "begin" :: "bundle" :: r => let (b, out) := Bundle.handleBegin r; ({ st with bundle := b }, out)
   | "bundle" :: r => let (b, out) := Bundle.handle st.bundle r; ({ st with bundle := b }, out)
+  | "acctx" :: r => (st, AccessTx.handle r)
+  | "begin" :: "acc" :: r => let (s, out) := Driver.AccessSets.begin r; ({ st with acc := s }, out)
+  | "a" :: r => let (s, out) := Driver.AccessSets.handle st.acc r; ({ st with acc := s }, out)
   | _ => (st, "bad-op")
 
 partial def loop (hin hout : IO.FS.Stream) (st : DState) : IO Unit := do
